@@ -109,6 +109,11 @@ func runC18(r *Report, rng *rand.Rand, thorough bool) {
 				out = append(out, req)
 			}
 		}
+		// "- {}": an empty alternative (authentication optional) next to real ones contributes no scheme and takes none away
+		if len(out) > 0 && rng.Intn(3) == 0 {
+			at := rng.Intn(len(out) + 1)
+			out = append(out[:at], append([]secReq{{}}, out[at:]...)...)
+		}
 		if out == nil {
 			out = []secReq{}
 		}
@@ -396,7 +401,7 @@ func runC18(r *Report, rng *rand.Rand, thorough bool) {
 		}
 	}
 	icases.WriteTo(r)
-	r.Rule = "server: documents with 4 security schemes (plain names and names needing sanitising) x global requirements (absent, empty, one or several alternatives) x operations that inherit, clear (empty list) or override with AND/OR combinations and scope lists, generated for 7 frameworks; the request context seen by the stub handler must hold exactly the scopes of the schemes of the effective requirements under the generated key constants. client: every provider of pkg/securityprovider on requests with pre-existing query parameters, headers and cookies and varied credentials; non-trivial = non-empty effective requirements / pre-existing request parts"
+	r.Rule = "server: documents with 4 security schemes (plain names and names needing sanitising) x global requirements (absent, empty, one or several alternatives, incl. an empty alternative) x operations that inherit, clear (empty list) or override with AND/OR combinations and scope lists, generated for 7 frameworks; the request context seen by the stub handler must hold exactly the scopes of the schemes of the effective requirements under the generated key constants. client: every provider of pkg/securityprovider on requests with pre-existing query parameters, headers and cookies and varied credentials; non-trivial = non-empty effective requirements / pre-existing request parts"
 }
 
 func urlQ(s string) string {
